@@ -311,6 +311,42 @@ def c11_scripts(rng, tier, model_prefixes):
                 ops.append(with_id(o, i))
         return ops
 
+    def build3(n, nch, common):
+        """masks that change from call to call (all-off calls included): channel c of the n-channel instance
+        vs a single-channel twin that is active exactly when channel c is - a channel's stream must not
+        depend on the OTHER channels' mask bits (seeded change C11g)"""
+        A = dict(n); A["ch"] = nch
+        ops = [with_id(A, 0)]
+        for c in range(nch):
+            b = dict(n); b["ch"] = 1; b["chbase"] = c
+            ops.append(with_id(b, 1 + c))
+        for c in range(nch):
+            ops.append({"op": "note", "twin": "chan", "a": 0, "b": 1 + c, "c": c})
+        for o in common:
+            if o["op"] in ("process", "partial"):
+                u = rng.random()
+                m = ([False] * nch if u < 0.15 else [True] * nch if u < 0.3 else [rng.random() < 0.6 for _ in range(nch)])
+                om = dict(o); om["mask"] = m; om["via"] = "into"
+                ops.append(with_id(om, 0))
+                for c in range(nch):
+                    oc = dict(o); oc["mask"] = [m[c]]; oc["via"] = "into"
+                    ops.append(with_id(oc, 1 + c))
+            else:
+                ops.append(with_id(o, 0))
+                for c in range(nch):
+                    ops.append(with_id(o, 1 + c))
+        return ops
+
+    for _ in range(n_gen // 2):
+        for kind in gen.KINDS:
+            h = gen.valid_history(rng, kind, rng.randrange(6, 16), small=rng.random() < 0.6,
+                                  allow=("ratio", "ramp", "chunk", "reset"))
+            n = calm(h[0])
+            sig(n, rng)
+            n.pop("probe", None)
+            n["T"] = rng.choice([32, 64])
+            common = [{k: v for k, v in o.items() if k not in ("mask", "empty_masked")} for o in h[1:]]
+            S.append(build3(n, rng.randrange(2, 5), common))
     for _ in range(n_gen):
         for kind in gen.KINDS:
             h = gen.valid_history(rng, kind, rng.randrange(4, 14), small=rng.random() < 0.5,
